@@ -273,6 +273,132 @@ def _inline(loc: Locals, e: ast.AST, depth: int = 4) -> ast.AST:
     return _R().visit(copy.deepcopy(e))
 
 
+def _isinstance_classes(t: ast.AST, var: str) -> T.Optional[T.Set[str]]:
+    """Class names of a plain `isinstance(var, K)` / `isinstance(var, (K1, K2))` test; None for anything else."""
+    if isinstance(t, ast.Call) and isinstance(t.func, ast.Name) and t.func.id == 'isinstance' and len(t.args) == 2 \
+            and isinstance(t.args[0], ast.Name) and t.args[0].id == var:
+        k = t.args[1]
+        names = {(attr_chain(x) or '?').split('.')[-1] for x in (k.elts if isinstance(k, ast.Tuple) else [k])}
+        return None if '?' in names else names
+    return None
+
+
+def _per_source_output_classes(ctx: RuleCtx) -> T.Dict[str, str]:
+    """Target classes whose get_outputs() names are per-source *object* names: the compile statement generator (not the link
+    statement) emits them, below the private directory of the target.  Evidence chain, all three links required:
+    (a) object_filename_from_source returns `<target>.<map>[<source>]` under `isinstance(<target>, K)`;
+    (b) class K fills `self.outputs` and `self.<map>` with the same value and get_outputs() returns self.outputs;
+    (c) generate_single_compile joins that object name to get_target_private_dir(<target>) and the join is the output of the
+    build statement."""
+    bm, bq, ofs = _resolved_method(ctx, 'object_filename_from_source')
+    tp, sp = param(ofs, 0, bq), param(ofs, 2, bq)
+    pm = parents(ofs)
+    found: T.Dict[str, str] = {}
+    for r in ast.walk(ofs):
+        if not (isinstance(r, ast.Return) and isinstance(r.value, ast.Subscript)):
+            continue
+        ch = (attr_chain(r.value.value) or '').split('.')
+        if not (len(ch) == 2 and ch[0] == tp and isinstance(r.value.slice, ast.Name) and r.value.slice.id == sp):
+            continue
+        par = pm.get(r)
+        ks = _isinstance_classes(par.test, tp) if isinstance(par, ast.If) and r in par.body else None
+        if ks is None:
+            raise Undecided(f'{bq}: `{short(r)}` is not guarded by a plain isinstance test on `{tp}`')
+        for k in ks:
+            found[k] = ch[1]
+    if not found:
+        return {}
+    bmod = ctx.repo.module('mesonbuild/build.py')
+    for k, mp in found.items():
+        cls = bmod.cls(k)
+        go = ctx.repo.find_method(bmod, cls, 'get_outputs')
+        body = [s for s in go[2].body if not (isinstance(s, ast.Expr) and isinstance(s.value, ast.Constant))] if go else []
+        if not (len(body) == 1 and isinstance(body[0], ast.Return) and attr_chain(body[0].value) == 'self.outputs'):
+            raise Undecided(f'build.{k}.get_outputs() is not `return self.outputs`')
+        same = False
+        for st in cls.body:
+            if not isinstance(st, ast.FunctionDef):
+                continue
+            app = {norm(c.args[0]) for c in ast.walk(st) if isinstance(c, ast.Call) and call_method(c) == 'append' and recv(c) == 'self.outputs'
+                   and len(c.args) == 1 and isinstance(c.args[0], ast.Name)}
+            sto = {norm(a.value) for a in ast.walk(st) if isinstance(a, ast.Assign) and len(a.targets) == 1 and isinstance(a.targets[0], ast.Subscript)
+                   and attr_chain(a.targets[0].value) == f'self.{mp}' and isinstance(a.value, ast.Name)}
+            same = same or bool(app & sto)
+        if not same:
+            raise Undecided(f'build.{k}: cannot see that the values of self.{mp} are the elements of self.outputs')
+    nm, nq, gsc = _resolved_method(ctx, 'generate_single_compile')
+    gt = param(gsc, 0, nq)
+    gloc = Locals(gsc)
+    placed = False
+    for a in ast.walk(gsc):
+        if not (isinstance(a, ast.Assign) and len(a.targets) == 1 and isinstance(a.targets[0], ast.Name) and isinstance(a.value, ast.Call)):
+            continue
+        j = a.value
+        if not (call_method(j) == 'join' and recv(j) == 'os.path' and len(j.args) == 2 and norm(j.args[0]) == f'self.get_target_private_dir({gt})'):
+            continue
+        try:
+            o = gloc.resolve(j.args[1])
+        except Undecided:
+            continue
+        if not (isinstance(o, ast.Call) and call_method(o) == 'object_filename_from_source' and recv(o) == 'self' and o.args and norm(o.args[0]) == gt):
+            continue
+        out = a.targets[0].id
+        for c in ast.walk(gsc):
+            if isinstance(c, ast.Call) and (call_name(c) or '').split('.')[-1] == 'NinjaBuildElement' and len(c.args) >= 2 and norm(c.args[1]) == out:
+                placed = True
+    if not placed:
+        raise Undecided(f'{nq}: cannot see the object name of object_filename_from_source joined to get_target_private_dir({gt}) as the statement output')
+    return found
+
+
+def _class_outdirs(fn: FuncNode, loc: Locals, e: ast.AST, tvar: str, loop: ast.AST) -> T.Tuple[ast.AST, T.Dict[str, ast.AST]]:
+    """(general definition, {class: definition}) of the output directory expression `e` used for the targets `tvar` of `loop`.
+    Understood forms: one definition (possibly a conditional expression on isinstance(tvar, K)); a definition in the loop body
+    followed by `if isinstance(tvar, K): <name> = ...`; `if isinstance(tvar, K): <name> = ... else: <name> = ...`."""
+    def split(v: ast.AST) -> T.Tuple[ast.AST, T.Dict[str, ast.AST]]:
+        if isinstance(v, ast.IfExp):
+            ks = _isinstance_classes(v.test, tvar)
+            if ks is None:
+                raise Undecided(f'{fn.name}: output directory chosen by a condition that is not isinstance({tvar}, K): {short(v.test)}')
+            g, per = split(v.orelse)
+            per.update({k: v.body for k in ks})
+            return g, per
+        return v, {}
+    if not isinstance(e, ast.Name) or e.id in params(fn):
+        return split(e)
+    defs = [a for a in Locals._walk(fn) if isinstance(a, (ast.Assign, ast.AnnAssign)) and a.value is not None
+            and any(isinstance(t, ast.Name) and t.id == e.id for t in (a.targets if isinstance(a, ast.Assign) else [a.target]))]
+    if len(defs) != len(loc.defs.get(e.id, [])) or not defs:
+        raise Undecided(f'{fn.name}: `{e.id}` is bound by something else than plain assignments')
+    if len(defs) == 1:
+        v = defs[0].value
+        return split(loc.resolve(v) if isinstance(v, ast.Name) else v)
+    pm = parents(fn)
+    general: T.List[T.Tuple[int, ast.AST]] = []
+    per: T.Dict[str, ast.AST] = {}
+    body = list(getattr(loop, 'body', []))
+    for a in defs:
+        par = pm.get(a)
+        if par is loop:
+            general.append((body.index(a), a.value))
+        elif isinstance(par, ast.If) and pm.get(par) is loop and _isinstance_classes(par.test, tvar) is not None and len(par.body if a in par.body else par.orelse) == 1:
+            if a in par.body:
+                for k in _isinstance_classes(par.test, tvar) or set():
+                    if k in per:
+                        raise Undecided(f'{fn.name}: two definitions of `{e.id}` for class {k}')
+                    per[k] = a.value
+                if not par.orelse:
+                    per.setdefault('#after', ast.Constant(value=body.index(par)))
+            else:
+                general.append((body.index(par), a.value))
+        else:
+            raise Undecided(f'{fn.name}: definition `{short(a)}` of the output directory is outside the understood forms')
+    after = per.pop('#after', None)
+    if len(general) != 1 or (after is not None and after.value < general[0][0]):  # type: ignore[attr-defined]
+        raise Undecided(f'{fn.name}: `{e.id}` has {len(general)} unconditional definitions / a class arm that the general definition overwrites')
+    return general[0][1], per
+
+
 def r3(ctx: RuleCtx) -> None:
     mod = ctx.repo.module(MINTRO)
     fn = intro_func(mod, 'targets')
@@ -312,7 +438,33 @@ def r3(ctx: RuleCtx) -> None:
     judge(ctx, norm(root) in (f'{p_build}.environment.get_build_dir()', f'{p_build}.environment.build_dir'), f'{qn}: filenames are rooted at the build directory',
           isinstance(root, ast.Call) and call_method(root) in ('get_source_dir', 'get_scratch_dir', 'get_log_dir'), mod, qn, elt,
           f'filenames are rooted at `{short(root)}`, ninja outputs are relative to {p_build}.environment.get_build_dir()')
-    outdir = loc.resolve(elt.args[1])
+    general, per_cls = _class_outdirs(fn, loc, elt.args[1], tvar, tloops[0] if len(tloops) == 1 else fn)
+    outdir = loc.resolve(general) if isinstance(general, ast.Name) else general
+    # per-class clause: a class whose get_outputs() are per-source objects has them generated in the private directory
+    diverted = _per_source_output_classes(ctx)
+    ctx.floor('target classes whose get_outputs() are per-source objects emitted below the private directory', len(diverted), 1)
+    tmod = ctx.repo.module('mesonbuild/build.py')
+    for k in sorted(diverted):
+        arm = None
+        for _, c in ctx.repo.mro(tmod, tmod.cls(k)):
+            if c.name in per_cls:
+                arm = per_cls[c.name]
+                break
+        if arm is None:
+            other = [t for t in ast.walk(fn) if k in (_isinstance_classes(t, tvar) or set())]
+            if other:
+                raise Undecided(f'{qn}: {k} targets are discriminated by `{short(other[0])}` outside the output directory definition')
+            used = outdir
+        else:
+            used = loc.resolve(arm) if isinstance(arm, ast.Name) else arm
+        good = is_call_on(used, p_backend, 'get_target_private_dir') and isinstance(used, ast.Call) and [norm(a) for a in used.args] == [tvar] and not used.keywords
+        same_as_general = arm is None or norm(used) == norm(outdir)
+        judge(ctx, good, f'{qn}: outputs of {k} (per-source objects, self.{diverted[k]}) are reported below {p_backend}.get_target_private_dir({tvar})',
+              same_as_general, mod, qn, f"'filename': directory of per-source outputs ({k})",
+              f'{k}.get_outputs() are the per-source object names (self.{diverted[k]}): the compile statement generates them in '
+              f'get_target_private_dir(target) (generate_single_compile: os.path.join(private dir, object_filename_from_source(...))), and the '
+              f'interpreter hands them to other targets below that directory, but intro-targets.json joins them to `{short(used, 90)}` - the '
+              f'directory of linked outputs; the listed files are never generated', fe)
     bmod, bqn, bfn, btp = _backend_dir_fn(ctx)
     if is_call_on(outdir, p_backend, 'get_target_dir') and isinstance(outdir, ast.Call) and [norm(a) for a in outdir.args] == [tvar]:
         ctx.ok(f'{qn}: output directory is {p_backend}.get_target_dir({tvar}) — the function the backend itself uses ({bqn})')
